@@ -102,6 +102,10 @@ unsafe fn guard_alloc(layout: Layout, left: bool) -> *mut u8 {
     arena_init();
     let n = layout.size().max(1);
     let data = round_up(n, PAGE).max(round_up(layout.align(), PAGE));
+    // a request that cannot fit must not consume (or overflow) the arena cursor
+    if n > ARENA_BYTES / 2 {
+        return std::ptr::null_mut();
+    }
     let total = data + 2 * PAGE;
     let start = ARENA_NEXT.fetch_add(total, Relaxed);
     if start + total > ARENA_BASE.load(Relaxed) + ARENA_BYTES {
